@@ -201,9 +201,8 @@ def apachePrefix : Bytes := b!"org.apache.cassandra.db.marshal."
 /-- strings.TrimPrefix -/
 def trimPrefix (pfx s : Bytes) : Bytes := if pfx.isPrefixOf s then s.drop pfx.length else s
 
-/-- helpers.go getApacheCassandraType -/
-def getApacheCassandraType (cls : Bytes) : Nat :=
-  let c := trimPrefix apachePrefix cls
+/-- the `switch` of helpers.go getApacheCassandraType on the class name without prefix -/
+def apacheSwitch (c : Bytes) : Nat :=
   if c == b!"AsciiType" then 0x01
   else if c == b!"LongType" then 0x02
   else if c == b!"BytesType" then 0x03
@@ -230,6 +229,9 @@ def getApacheCassandraType (cls : Bytes) : Nat :=
   else if c == b!"TupleType" then typeTuple
   else if c == b!"DurationType" then 0x15
   else typeCustom
+
+/-- helpers.go getApacheCassandraType -/
+def getApacheCassandraType (cls : Bytes) : Nat := apacheSwitch (trimPrefix apachePrefix cls)
 
 /-- readTypeInfo (frame.go:872-934). The Go function recurses on the buffer; every call consumes
     at least the 2 bytes of the option id, so `fuel = len(buf)` (see `readTypeInfo`) is never
